@@ -455,7 +455,8 @@ func (w *world) subsidy(env string, a []byte, poolID, amount uint64, opcode []by
 	return st
 }
 
-// subsidyCase: MessageSubsidy.Check does not validate ChainId and HandleMessageSubsidy credits pools[ChainId]. The family
+// subsidyCase (regression for the finding repaired in /repo eca9d8a: MessageSubsidy.Check did not validate ChainId while
+// HandleMessageSubsidy credits pools[ChainId]; the pool-id forms must now answer InvalidChainId). The family
 // sends subsidies to every pool-id form of a chain that has open sell orders and pending DEX operations (x, x+Escrow,
 // x+Holding, x+Liquidity), to MaxChainId and just above, to the DAO pool, to the chain's own fee pool and to 2^64-1, and
 // evaluates the identities of C20 on the real state after each one.
